@@ -1,7 +1,7 @@
 (* C13 — WebSocketApp delivers every event to its callback exactly once, in order.
    Statements only (restated verbatim from Proofs/*.v), each closed by [exact]. *)
 From Coq Require Import ZArith List Bool Permutation.
-From WS Require Import Base.Res Base.Bytes Spec.Frame Spec.Legal Spec.AppTrace Gen.GenAbnf Model.Recv Model.Conn Model.App Proofs.RecvSpec Proofs.ConnSpec Proofs.ConnProof Proofs.RecvProof Proofs.AppProof.
+From WS Require Import Base.Res Base.Bytes Spec.Frame Spec.Legal Spec.AppTrace Gen.GenAbnf Model.Recv Model.Conn Model.App Proofs.RecvSpec Proofs.ConnSpec Proofs.ConnProof Proofs.RecvProof Proofs.AppProof Gen.GenApp Proofs.AppGen.
 Import ListNotations.
 Open Scope Z_scope.
 
@@ -35,6 +35,26 @@ Theorem C13_open_first_run : forall cfg evs more, on_open cfg <> Absent ->
   exists post, cbs (snd (run_forever cfg (Established evs :: more))) = TOpen :: post.
 Proof. exact AppProof.C13_open_first_run. Qed.
 Print Assumptions C13_open_first_run.
+
+(* CODE TIE: the routing of a received frame to on_ping / on_pong / on_data+on_message / teardown is the opcode chain regenerated from read() in run_forever (Gen/GenApp.v); text is decoded exactly when the regenerated test says so *)
+Theorem C13_routing_is_the_code : forall cfg op f s,
+  deliver cfg op f s =
+  if app_is_close op then
+    let '(fl, s1) := teardown cfg (Some f) s in (fl, s1, true)
+  else if app_is_ping op then
+    let '(fl, s1) := callback cfg (on_ping cfg) (TPing (a_data f)) s in (fl, s1, false)
+  else if app_is_pong op then
+    let '(fl, s1) := callback cfg (on_pong cfg) (TPong (a_data f)) s in (fl, s1, false)
+  else if app_is_cont op false then (Normal, s, false)
+  else
+    let is_text := app_decodes_text op (app_skip_utf8 cfg) in
+    match callback cfg (on_data cfg) (TData (a_data f) op true is_text) s with
+    | (Kbd, s1) => (Kbd, s1, false)
+    | (Normal, s1) =>
+      let '(fl, s2) := callback cfg (on_message cfg) (TMessage (a_data f) is_text) s1 in (fl, s2, false)
+    end.
+Proof. exact AppGen.deliver_gen. Qed.
+Print Assumptions C13_routing_is_the_code.
 
 (* promptness, structural part: after every frame returned the parser holds no bytes (fb' = fb_init in call_post), so a complete frame is never left undelivered inside the library while the loop blocks in select *)
 (* alias of Proofs/RecvProof.v:recv_frame_call (proved inside a Section or with binders): the closed statement is printed by Check *)
